@@ -70,6 +70,10 @@ impl Part {
             self.violations.push(v);
         }
     }
+    /// Has a violation with this signature been recorded already (its witness is kept, later ones only counted)?
+    pub fn seen(&self, signature: &str) -> bool {
+        self.seen_sigs.contains(signature)
+    }
     pub fn violated(&self) -> bool {
         !self.violations.is_empty()
     }
